@@ -101,19 +101,18 @@ Definition held (T : tst) : list nat :=
 
 Definition places (s : st) : list nat := held (T0 s) ++ Fq s ++ Sq s.
 
-(* per fiber: at most one place; queued => READY, SAVING, or WAITING again after
-   a flip (then not in a wait queue); RUNNING / READY / SAVING / WAITING-but-not-
-   in-a-wait-queue => has a place; in a wait queue => WAITING and no place;
+(* per fiber: at most one place; queued => state >= 2 (READY, SAVING, or WAITING
+   again after a flip, then not in a wait queue by f_wq); existing and not in a
+   wait queue => has a place; in a wait queue => WAITING and no place;
    states are 0 (none) 1 RUNNING 2 READY 3 WAITING 5 SAVING; ids in 1..N.
    h = held fibers, F / S = the two deques, w f = 1 iff inwq f *)
 Record fibp (N : nat) (fs : nat -> Z) (w : nat -> Z) (h F S : list nat) (f : nat) : Prop := {
   f_once : cnt h f + cnt F f + cnt S f <= 1;
-  f_queued : 1 <= cnt F f + cnt S f -> fs f = 2%Z \/ fs f = 5%Z \/ fs f = 3%Z;
-  f_placed : fs f = 1%Z \/ fs f = 2%Z \/ fs f = 5%Z \/ (fs f = 3%Z /\ w f = 0%Z) ->
-             1 <= cnt h f + cnt F f + cnt S f;
+  f_queued : 1 <= cnt F f + cnt S f -> (2 <= fs f)%Z;
+  f_placed : (1 <= fs f)%Z -> w f = 0%Z -> 1 <= cnt h f + cnt F f + cnt S f;
   f_wq : w f = 1%Z -> fs f = 3%Z /\ cnt h f + cnt F f + cnt S f = 0;
-  f_wb : w f = 0%Z \/ w f = 1%Z;
-  f_state : (0 <= fs f <= 3 \/ fs f = 5)%Z;
+  f_wb : (0 <= w f <= 1)%Z;
+  f_state : (0 <= fs f <= 5 /\ fs f <> 4)%Z;
   f_range : fs f <> 0%Z -> 1 <= f <= N
 }.
 Definition wqz (s : st) (f : nat) : Z := if inwq s f then 1%Z else 0%Z.
@@ -270,10 +269,19 @@ Ltac neq :=
 
 (* solve a per-fiber goal from the per-fiber facts of the old state at g
    (and at the named fibers posed before) *)
+Lemma wqz_set_wq s f b g : wqz (set_wq s f b) g = if Nat.eqb g f then (if b then 1%Z else 0%Z) else wqz s g.
+Proof. unfold wqz, upd; cbn [inwq set_wq]. unfold upd. destruct (Nat.eqb g f); reflexivity. Qed.
+Lemma wqz_set_fs s f v g : wqz (set_fs s f v) g = wqz s g. Proof. reflexivity. Qed.
+Lemma wqz_set_dq s d l g : wqz (set_dq s d l) g = wqz s g. Proof. reflexivity. Qed.
+Lemma wqz_set_from s t d g : wqz (set_from s t d) g = wqz s g. Proof. reflexivity. Qed.
+Lemma wqz_set_to s t d g : wqz (set_to s t d) g = wqz s g. Proof. reflexivity. Qed.
+Lemma wqz_set_thr s t x g : wqz (set_thr s t x) g = wqz s g. Proof. reflexivity. Qed.
+
 Ltac fibs Hfib g :=
   let H := fresh "Hg" in pose proof (Hfib g) as H; destruct H;
   unfold run, kok, hok in *;
-  constructor; unfold wqz in *; cbn [cnt inwq set_wq set_fs set_thr set_dq set_from set_to] in *;
+  constructor; cbn [cnt fstt set_wq set_fs set_thr set_dq set_from set_to] in *;
+  rewrite ?wqz_set_wq, ?wqz_set_fs, ?wqz_set_dq, ?wqz_set_from, ?wqz_set_to, ?wqz_set_thr in *;
   rewrite ?cnt_opt in *; unfold upd in *; neq; cbv iota in *; try lia.
 
 Lemma Fq_push s l : sfrom s 0 = 1 \/ sfrom s 0 = 2 ->
@@ -326,7 +334,7 @@ Proof.
     destruct Hloc as (Hr & Hf & Hz). cbn [fst].
     mk.
     + intros _. exact Hto'.
-    + intros g. hsimp. pose proof (Hfib f) as []. pose proof (Hfib g) as []. unfold run, kok, hok in *. constructor. all: unfold wqz in *. all: cbn [cnt inwq set_wq set_fs set_thr set_dq set_from set_to] in *. all: rewrite ?cnt_opt in *. all: unfold upd in *. all: neq. idtac "neq done". all: cbv iota in *. idtac "iota done". all: try lia. Show. all: fail.
+    + intros g. hsimp. pose proof (Hfib f) as []. fibs Hfib g.
     + exact Hprog.
     + unfold lok, run in *; cbn. rewrite upd_same. split; auto.
       destruct Hr as [Hr|Hr]; auto. right. rewrite upd_other; auto. congruence.
@@ -405,7 +413,7 @@ Proof.
       * intros _. exact Hto'.
       * intros g. rewrite E1, E2. hsimp. fibs Hfib g.
       * exact Hprog.
-      * unfold lok; cbn. split; auto. pose proof (Hfib x) as [_ Hq _ _ _ _ _]. apply Hq. cbn. rewrite Nat.eqb_refl. lia.
+      * unfold lok; cbn. split; auto. pose proof (Hfib x) as [_ Hq _ _ _ Hs _]. cbn [cnt] in Hq. rewrite Nat.eqb_refl in Hq. lia.
   - (* PN8 *)
     destruct Hloc as [Hk Hx].
     destruct (Z.eqb_spec (fstt s x) 5) as [E5|E5].
